@@ -574,7 +574,11 @@ func globalErr(i *interpreter, pkg, name string) value {
 		panic(engineError{"package " + pkg + " not loaded"})
 	}
 	g := p.Var(name)
-	return *i.globals[g]
+	cell, ok := i.globals[g]
+	if !ok {
+		panic(engineError{"global " + pkg + "." + name + " not initialised"})
+	}
+	return *cell
 }
 
 func isGlobalErr(i *interpreter, e iface, pkg, name string) bool {
